@@ -66,7 +66,7 @@ def family(tier):
 
 
 # --------------------------------------------------------------------------- worker process
-def generate_all(tier, order, only=None):
+def generate_all(tier, order, only=None, part=(0, 1)):
     from json_ref_dict import RefDict, materialize
     from mc import docs
     from statham.__main__ import main
@@ -76,7 +76,7 @@ def generate_all(tier, order, only=None):
     from statham.serializers.orderer import get_object_classes
 
     fam = family(tier)
-    idx = list(range(len(fam)))
+    idx = [i for i in range(len(fam)) if i % part[1] == part[0]]
     if only is not None:
         idx = [only]
     if order == "reverse":
@@ -108,12 +108,13 @@ def worker_main(argv):
     tier, outfile = argv[0], argv[1]
     only = int(argv[2]) if len(argv) > 2 and argv[2] != "-" else None
     first = argv[3] if len(argv) > 3 else "forward"
+    part = (int(argv[4]), int(argv[5])) if len(argv) > 5 else (0, 1)
     # the order of the two passes differs between processes: state carried from one document to the next (a module-level
     # cache, a mutated shared default) then shows up as a difference between processes
     second = {"forward": "reverse", "reverse": "forward", "rotated": "forward"}[first]
-    res = {first: generate_all(tier, first, only)}
+    res = {first: generate_all(tier, first, only, part)}
     if only is None:
-        res[second] = generate_all(tier, second)
+        res[second] = generate_all(tier, second, None, part)
     with open(outfile, "w") as fh:
         json.dump(res, fh)
 
@@ -130,10 +131,11 @@ def plan(tier, seed):
     import multiprocessing
 
     with multiprocessing.get_context("fork").Pool(16) as pool:
-        seeds, cov = procs.select_seeds(PROBE_SETS, must_cover={0}, search=range(0, 160 if tier == "quick" else 400), cap=8 if tier == "quick" else 14, pool=pool)
+        seeds, cov = procs.select_seeds(PROBE_SETS, must_cover={0}, search=range(0, 160 if tier == "quick" else 400), cap=6 if tier == "quick" else 14, pool=pool)
     scratch = tempfile.mkdtemp(prefix="verif_c09_")
     _SCRATCH[0] = scratch
-    items = [("seed", s, tier, scratch, ("forward", "reverse", "rotated")[n % 3]) for n, s in enumerate(seeds)]
+    nparts = 2 if len(seeds) <= 8 else 1
+    items = [("seed", s, tier, scratch, ("forward", "reverse", "rotated")[n % 3], k, nparts) for n, s in enumerate(seeds) for k in range(nparts)]
     nfam = len(family(tier))
     if tier == "thorough":
         items += [("alone", lo, min(nfam, lo + 40), tier, scratch) for lo in range(0, nfam, 40)]  # every 4th document, see work()
@@ -141,9 +143,9 @@ def plan(tier, seed):
     return {"items": items, "meta": {"seeds": seeds, "probe_sets": len(PROBE_SETS), **cov, "documents": nfam, "passes_per_process": "two passes per process; the first pass is forward, reverse or rotated depending on the process", "scratch": scratch, "exhaustive": bool(cov["must_cover_complete"])}}
 
 
-def run_worker(seed, tier, outfile, only=None, first="forward"):
+def run_worker(seed, tier, outfile, only=None, first="forward", part=(0, 1)):
     env = procs.env_for(seed, None)
-    cmd = [sys.executable, "-m", "mc.checks.c09", "--worker", tier, outfile, str(only) if only is not None else "-", first]
+    cmd = [sys.executable, "-m", "mc.checks.c09", "--worker", tier, outfile, str(only) if only is not None else "-", first, str(part[0]), str(part[1])]
     r = subprocess.run(cmd, env=env, capture_output=True, text=True, cwd=runner.VERIF)
     if r.returncode != 0:
         raise RuntimeError("worker failed: %s" % r.stderr[-500:])
@@ -154,9 +156,9 @@ def run_worker(seed, tier, outfile, only=None, first="forward"):
 def work(item):
     st = runner.Stats()
     if item[0] == "seed":
-        _, seed, tier, scratch, first = item
-        outfile = os.path.join(scratch, "seed_%d.json" % seed)
-        res = run_worker(seed, tier, outfile, first=first)
+        _, seed, tier, scratch, first, k, nparts = item
+        outfile = os.path.join(scratch, "seed_%d_%d.json" % (seed, k))
+        res = run_worker(seed, tier, outfile, first=first, part=(k, nparts))
         for pas in sorted(res):
             for i, entry in res[pas].items():
                 st.sets["d"].add((int(i), "seed%d/%s" % (seed, pas), digest(entry)))
@@ -226,8 +228,15 @@ def finish(total, meta):
             try:
                 seed = int(cfg.split("/")[0].replace("seed", ""))
                 pas = cfg.split("/")[1]
-                with open(os.path.join(scratch, "seed_%d.json" % seed)) as fh:
-                    texts.append(json.load(fh)[pas][str(i)])
+                for k in (0, 1):
+                    fn = os.path.join(scratch, "seed_%d_%d.json" % (seed, k))
+                    if os.path.exists(fn):
+                        data = json.load(open(fn))
+                        if str(i) in data.get(pas, {}):
+                            texts.append(data[pas][str(i)])
+                            break
+                else:
+                    texts.append(None)
             except Exception:
                 texts.append(None)
         what = "py" if texts[0] and texts[1] and texts[0]["py"] != texts[1]["py"] else "json" if texts[0] and texts[1] and texts[0]["json"] != texts[1]["json"] else "names"
